@@ -1701,7 +1701,13 @@ func (n *LambdaNode) SetComment(c *CommentNode) {
 }
 func (n *LambdaNode) Equal(o interface{}) bool {
 	if on, ok := o.(*LambdaNode); ok {
-		return (n == nil && on == nil) || n.Expression.Equal(on.Expression)
+		if n == nil || on == nil {
+			return n == nil && on == nil
+		}
+		if n.Expression == nil || on.Expression == nil {
+			return n.Expression == nil && on.Expression == nil
+		}
+		return n.Expression.Equal(on.Expression)
 	}
 	return false
 }
